@@ -137,7 +137,7 @@ def drvStep (s : St) (args : List String) : St × String :=
     match parseBatch rest with
     | none => (s, "bad-op")
     | some b =>
-      let r := validate (·.vflag) s b
+      let r := validate (fun _ b => b.vflag) s b
       let out := match r.2 with
         | none => "ok"
         | some .verify => "err:verify"
@@ -152,7 +152,7 @@ def drvStep (s : St) (args : List String) : St × String :=
       pure (f, ns, pv)) with
     | none => (s, "bad-op")
     | some (f, ns, pv) =>
-      let r := step (·.vflag) s (.sign f ns pv)
+      let r := step (fun _ b => b.vflag) s (.sign f ns pv)
       let out := match r.2 with
         | .sign (.ok sigs _) =>
           s!"ok tx={(r.1.pending.map (·.tid)).getD 0} sigs={fmtSigs sigs} rows={fmtRows r.1}"
